@@ -1477,7 +1477,7 @@ pub(crate) fn encoder_compress<
             params.q9_5 = true;
             params.quality = 10;
             ChooseHasher(&mut params);
-            s_orig.hasher_ = BrotliMakeHasher(m8, &params);
+            s_orig.hasher_ = BrotliMakeHasher(&mut s_orig.m8, &params);
         }
         let mut result: bool;
         {
